@@ -137,11 +137,46 @@ pub fn run(ctx: &Ctx) -> Report {
             ("io", ProvSpec::Fail(ErrSpec::Io)),
             ("foreign", ProvSpec::Fail(ErrSpec::Private)),
         ];
+        // request classes, plus presented signatures of unusual shape on an otherwise valid request
+        let mut cases: Vec<(String, crate::e2e::Case)> = Vec::new();
         for (cname, dims) in &classes {
+            let case = c13::materialize(dims).unwrap();
+            let case = resign_with(dims, secret).unwrap_or(case);
+            cases.push((cname.clone(), case));
+            if cname.ends_with(":valid") {
+                let valid = cases.last().unwrap().1.clone();
+                let received = valid.wire.as_received().unwrap();
+                let o = refmodel::verify::validate(&received, &valid.cfg.to_ref(), &mut |a| {
+                    refmodel::verify::Answer::Key(refmodel::hmac::chain(secret.as_bytes(), &a.date8, a.region.as_bytes(), a.service.as_bytes()).ksigning)
+                });
+                let sig = o.presented_signature.clone().unwrap_or_default();
+                if sig.len() == 64 {
+                    let shapes: Vec<(&str, String)> = vec![
+                        ("sig-truncated-63", sig[..63].to_string()),
+                        ("sig-truncated-1", sig[..1].to_string()),
+                        ("sig-empty", String::new()),
+                        ("sig-extended-65", format!("{}0", sig)),
+                        ("sig-uppercase", sig.to_uppercase()),
+                        ("sig-non-hex", "z".repeat(64)),
+                        ("sig-128", format!("{}{}", sig, sig)),
+                    ];
+                    for (sname, new) in shapes {
+                        let mut c = valid.clone();
+                        c.wire.uri = c.wire.uri.replace(&sig, &new);
+                        for h in c.wire.headers.iter_mut() {
+                            let t = String::from_utf8_lossy(&h.1).to_string();
+                            if t.contains(&sig) {
+                                h.1 = t.replace(&sig, &new).into_bytes();
+                            }
+                        }
+                        cases.push((format!("{}:{}", cname, sname), c));
+                    }
+                }
+            }
+        }
+        for (cname, base_case) in &cases {
             for (pname, prov) in &provider_kinds {
-                let mut case = c13::materialize(dims).unwrap();
-                // re-sign the request with this secret (materialize signs with the default one)
-                case = resign_with(dims, secret).unwrap_or(case);
+                let mut case = base_case.clone();
                 case.prov = prov.clone();
                 let _ = env::take_captured();
                 let mut provider = case.prov.to_provider();
@@ -197,9 +232,13 @@ pub fn run(ctx: &Ctx) -> Report {
                             refmodel::verify::Answer::Key(refmodel::hmac::chain(secret.as_bytes(), &a.date8, a.region.as_bytes(), a.service.as_bytes()).ksigning)
                         });
                         if let (Some(exp), Some(pres)) = (&o.expected_signature, &o.presented_signature) {
-                            if exp != pres {
+                            // the presented signature is legitimately echoed; only search for the correct one
+                            // when the request did not itself carry it (in any letter case, anywhere in the value)
+                            if exp != pres && !pres.to_lowercase().contains(exp.as_str()) {
                                 extra_needles.push(Needle { what: "correct signature of the refused request".into(), bytes: exp.clone().into_bytes() });
-                                extra_needles.push(Needle { what: "correct signature (HEX)".into(), bytes: exp.to_uppercase().into_bytes() });
+                                if &exp.to_uppercase() != pres {
+                                    extra_needles.push(Needle { what: "correct signature (HEX)".into(), bytes: exp.to_uppercase().into_bytes() });
+                                }
                             }
                         }
                     }
@@ -258,7 +297,7 @@ pub fn run(ctx: &Ctx) -> Report {
     st.sample(0, 1, || json!({"observables": ["error Display/Debug", "key types Debug/Display", "provider request/response Debug", "CanonicalRequest/AuthParams/SigV4Authenticator Debug", "log records >= debug"], "needles_per_secret": n_needles / 3}));
     Report {
         stats: st,
-        rule: "3 secrets x 33 request classes (one per stage of the documented order on each carrier, valid, wrong signature) x 5 provider outcomes (key, wrong key, ExpiredToken, io error, private error type); observables: the returned error's Display and Debug, the response Debug, Debug/Display (plain and alternate) of the five key types, GetSigningKeyRequest/Response, SigV4AuthenticatorResponse, CanonicalRequest, AuthParams, SigV4Authenticator, and every log record at level >= Debug captured by the harness logger (Trace records counted, not searched); needles: secret, AWS4+secret, kDate, kRegion, kService, kSigning, each raw, hex, HEX, base64, base64url, as a decimal byte list and ascii-escaped, plus the correct signature of each refused request that did not present it. states = (class, provider, outcome)".into(),
+        rule: "3 secrets x 47 request classes (one per stage of the documented order on each carrier, valid, wrong signature, and presented signatures of 7 unusual shapes: truncated, empty, extended, doubled, upper-case, non-hex) x 5 provider outcomes (key, wrong key, ExpiredToken, io error, private error type); observables: the returned error's Display and Debug, the response Debug, Debug/Display (plain and alternate) of the five key types, GetSigningKeyRequest/Response, SigV4AuthenticatorResponse, CanonicalRequest, AuthParams, SigV4Authenticator, and every log record at level >= Debug captured by the harness logger (Trace records counted, not searched); needles: secret, AWS4+secret, kDate, kRegion, kService, kSigning, each raw, hex, HEX, base64, base64url, as a decimal byte list and ascii-escaped, plus the correct signature of each refused request that did not present it. states = (class, provider, outcome)".into(),
         bounds: json!({"secrets": 3, "classes": classes.len(), "provider_outcomes": 5}),
         exhaustive: true,
         assumptions: vec!["needles shorter than 16 bytes are not searched (accidental matches)".into()],
